@@ -49,7 +49,15 @@ func runSolver(s solverSpec, script string, timeoutMs int, dir string, tag strin
 	_ = cmd.Run()
 	ms := time.Since(t0).Milliseconds()
 	text := out.String()
-	first := strings.TrimSpace(strings.SplitN(strings.TrimSpace(text), "\n", 2)[0])
+	first := ""
+	for _, ln := range strings.Split(text, "\n") {
+		ln = strings.TrimSpace(ln)
+		if ln == "" || strings.HasPrefix(ln, "WARNING") || strings.HasPrefix(ln, "(warning") {
+			continue
+		}
+		first = ln
+		break
+	}
 	st := "error"
 	switch {
 	case first == "unsat":
